@@ -16,6 +16,19 @@ SCOPE = ("Modelled, not verified: parsing, HIR lowering (body.rs), salsa and the
          "values_names_in_scope (resolver.rs) and the module value table. ")
 
 CHECKS = {
+ "C12": dict(
+  technique="Lean 4 invariant proofs over a reader/writer/cancellation transition system whose flags are regenerated from ide/mod.rs + replay of real multi-threaded event logs on the model",
+  text=("M-conc models salsa's contract (snapshot = revision it was taken at; a pending write makes older snapshots unwind at their next step; "
+        "the write waits until every snapshot is dropped) and AnalysisHost on top of it; the flags cancel-before-apply, synthetic-write, "
+        "Cancelled::catch, every-query-through-with_db and snapshot-is-db-snapshot are extracted by xlate from crates/ide/src/ide/mod.rs on every "
+        "run and hostFlags_ok is decided on them. Theorems for ALL interleavings of the model: isolation (a reader that answers, answers from its "
+        "snapshot's revision), no_crash, writer_progress (after beginApply one step of every reader enables the write, however long the queries), "
+        "no_cancel_blocks (without cancellation the wait is unbounded), snapshot_after_write (Props/C12.lean). Tie: the harness runs one writer and "
+        "1-8 reader threads on the real AnalysisHost under seeded yields/sleeps; the globally ordered event log is converted to a model schedule, "
+        "run by the Lean driver, and the outcome (answered / cancelled per reader, final revision) must coincide; the oracle compares every answer "
+        "with a sequential reference for the snapshot's own version, checks no panic, bounded apply latency against a 0.8 s cold query batch, and "
+        "that later snapshots see the new workspace. PARTIAL: real interleavings are sampled, not enumerated; salsa is trusted."),
+  note=TB + "Modelled, not verified: salsa's runtime (revision counter, query lock, cancellation flag) by its documented contract; thread scheduling of the OS.", ref="5.C12, 4.6"),
  "C11": dict(
   technique="Lean 4 proof of history independence of the reachable database inputs (M-db) + tie on the inputs through a read-only hook + fresh-instance oracle",
   text=("apply_history_independent: after ANY sequence of changes (file contents, root lists that grow/shrink, graphs) the inputs reachable from "
